@@ -176,7 +176,17 @@ def build(tier="quick", seed=0):
         tree = ("arr", [("leaf", 2), ("arr", [("leaf", name_v), ("ext", 14, inner)])])
         return it.call(it.getattr_(packer, "unpack_obj"), [14, MPBytes(tree)], {})
 
-    ENTRIES = {"api_clone": entry_api_clone, "api_one_string": entry_api_one_string, "stream_nested": entry_stream_nested, "api": entry_api, "stream": entry_stream, "json": entry_json, "avro_doc": entry_avro_doc, "avro_schema": entry_avro_schema, "grouped_api": entry_grouped_api, "grouped_stream": entry_grouped_stream}
+    def entry_merge_api(name_v, fields_v):
+        # the composition API takes a free type name for the merged / extended type: it is a definition like any other
+        P = it.call(RD, ["c06/p", []], {})
+        return it.call(base.g["merge_record_descriptors"], [(P,)], {"name": name_v})
+
+    def entry_extend_api(name_v, fields_v):
+        P = it.call(RD, ["c06/p", []], {})
+        r = it.call(base.g["extend_record"], [it.call(P, [], {}), []], {"name": name_v})
+        return it.getattr_(r, "_desc")
+
+    ENTRIES = {"merge_api": entry_merge_api, "extend_api": entry_extend_api, "api_clone": entry_api_clone, "api_one_string": entry_api_one_string, "stream_nested": entry_stream_nested, "api": entry_api, "stream": entry_stream, "json": entry_json, "avro_doc": entry_avro_doc, "avro_schema": entry_avro_schema, "grouped_api": entry_grouped_api, "grouped_stream": entry_grouped_stream}
     SHAPES = {
         "one_field": lambda: [(SStr(tn), SStr(fn))],
         "no_field": lambda: [],
@@ -285,13 +295,13 @@ def build(tier="quick", seed=0):
 
         return Obligation(name, run, replay=lambda w: {"call": "c06_definition", "args": w if w else {"entry": entry}}, functions=FU_GATE + {"stream": ("flow.record.packer:RecordPacker.unpack_obj", "flow.record.base:RecordDescriptor._unpack"), "json": ("flow.record.jsonpacker:JsonRecordPacker.unpack_obj",),
                                                                                                               "avro_doc": ("flow.record.adapter.avro:schema_to_descriptor",), "avro_schema": ("flow.record.adapter.avro:schema_to_descriptor", "flow.record.adapter.avro:avro_type_to_flow_type"), "api": (),
-                                                                                                              "api_clone": (), "api_one_string": ("flow.record.base:parse_def (assumed: returns some name and some pairs)",), "stream_nested": ("flow.record.packer:RecordPacker.unpack_obj", "flow.record.base:RecordDescriptor._unpack"), "grouped_api": ("flow.record.base:GroupedRecord.__init__",), "grouped_stream": ("flow.record.packer:RecordPacker.unpack_obj", "flow.record.base:GroupedRecord.__init__")}[entry])
+                                                                                                              "merge_api": ("flow.record.base:merge_record_descriptors",), "extend_api": ("flow.record.base:extend_record",), "api_clone": (), "api_one_string": ("flow.record.base:parse_def (assumed: returns some name and some pairs)",), "stream_nested": ("flow.record.packer:RecordPacker.unpack_obj", "flow.record.base:RecordDescriptor._unpack"), "grouped_api": ("flow.record.base:GroupedRecord.__init__",), "grouped_stream": ("flow.record.packer:RecordPacker.unpack_obj", "flow.record.base:GroupedRecord.__init__")}[entry])
 
     for entry in ENTRIES:
         for shape in SHAPES:
             if entry != "api" and shape in ("same_field_twice",):
                 continue
-            if entry in ("api_clone", "stream_nested") and shape != "no_field":
+            if entry in ("api_clone", "stream_nested", "merge_api", "extend_api") and shape != "no_field":
                 continue  # (only the NAME is new text in these forms; the field list is that of an already accepted descriptor)
             if entry == "api_one_string" and shape not in ("one_field", "no_field"):
                 continue
